@@ -74,6 +74,14 @@ class ValueMachine(Machine):
         return sym('cat', *parts)
 
     def vstore_scalar(self, obj, off, size, val):
+        one = getattr(obj, 'onestep', None)
+        if one is not None and size == 8 and isinstance(val, (Sym, float, int)) and not isinstance(val, bool):
+            # one-step mode (E7): the stored expression is recorded as the definition of a new generation of this word and
+            # the word now reads as a fresh atom, so every definition is in terms of the previous generation only
+            g = one['gen'].get(off, 0) + 1
+            one['gen'][off] = g
+            one['defs'][(off, g)] = val
+            val = sym('in', '%s#%d' % (obj.name, g), off, 8)
         vs = self._vstore(obj)
         hit = vs.get(off)
         if hit is not None and hit[0] == size and getattr(obj, 'vmax', 8) <= size:
